@@ -1,6 +1,7 @@
 package cmd
 
 import (
+	"errors"
 	goio "io"
 	"os"
 
@@ -30,7 +31,12 @@ var topologiesCmd = &cobra.Command{
 				return
 			}
 			defer treefile.Close()
-			t := <-treechan
+			t, ok := <-treechan
+			if !ok {
+				err = errors.New("no tree in the input file")
+				io.LogError(err)
+				return
+			}
 			if t.Err != nil {
 				io.LogError(t.Err)
 				return t.Err
